@@ -193,6 +193,16 @@ def run(tier, seed, replay=None):
                         nb = with_ctx(sb, b)
                         pairs.append((lang, sd, stage, L, na, nb))
                         saved[(lang, sd, stage)] = pickle.dumps(b)
+                        if saver is not None:
+                            # the driver's flow: the SAME object is saved after every stage (it was mutated in place in between);
+                            # each file must hold the program as it was when that file was written
+                            dpath = os.path.join(tmpd, "drv-" + stage[0])
+                            saver(a, "// text", dpath)
+                            fa = U.load_program(dpath + ".bin")
+                            sf = ir2coq.Ser(L, fa)
+                            sf.names, sf.classes, sf.tvars = dict(sa.names), dict(sa.classes), dict(sa.tvars)
+                            pairs.append((lang, sd, stage + "-as-saved-by-the-driver", L, na, with_ctx(sf, fa)))
+                            saved[(lang, sd, stage + "-as-saved-by-the-driver")] = pickle.dumps(fa)
                         prev_tree, prev_stage, prev_names = nb, stage, (dict(sa.names), dict(sa.classes), dict(sa.tvars))
                         ta_, tb_ = texts(a), texts(b)
                         for l2 in TR:
